@@ -87,14 +87,29 @@ inductive Call
   | setFailfast (b : Bool)
 deriving DecidableEq, Repr, Inhabited
 
+def hasDupNames : List Text → Bool
+  | [] => false
+  | x :: xs => xs.contains x || hasDupNames xs
+
+/-- a details dict: names are unique, an attachment called `reason` is text -/
+def detailsOk (d : List (Text × Content)) : Bool :=
+  !hasDupNames (d.map (·.1)) &&
+  d.all fun p => !(p.1 == "reason".toList) || (match p.2 with | .text _ => true | _ => false)
+
 /-- the argument forms a caller may use: `exc_info` or details for error/failure/expected failure, a reason
 or details for skip, nothing or details for success/unexpected success -/
 def argOk : Kind → Arg → Bool
-  | _, .details _ => true
+  | _, .details d => detailsOk d
   | .success, .none | .uxsuccess, .none => true
   | .error, .exc .real | .failure, .exc .real | .xfail, .exc .real => true
   | .skip, .reason _ => true
   | _, _ => false
+
+/-- a call a caller may make: argument form fits the outcome; times are `None` or a harness datetime -/
+def Call.ok : Call → Bool
+  | .add k _ a => argOk k a
+  | .time .wall => false
+  | _ => true
 
 /-- a recorded call together with the tags current at the recorder (outcomes only, else 0) -/
 structure Ev where
@@ -142,18 +157,21 @@ def emptyLines (d : Details) : List Text :=
   d.filterMap fun p => match textOf p.2 with
     | some [] => some ("  ".toList ++ p.1 ++ [nl])
     | _ => none
-/-- formatted non-empty text attachments other than the special one -/
-def textAtts (special : Option Text) (d : Details) : List Text :=
-  d.filterMap fun p => match textOf p.2 with
-    | some [] => none
-    | some t => if some p.1 = special then none else some (formatText p.1 t)
-    | none => none
+/-- a non-empty text attachment other than the special one, formatted -/
+def textAtt (special : Option Text) (p : Text × Content) : Option Text :=
+  match textOf p.2 with
+  | some [] => none
+  | some t => if some p.1 = special then none else some (formatText p.1 t)
+  | none => none
+def textAtts (special : Option Text) (d : Details) : List Text := d.filterMap (textAtt special)
+def specialLine (special : Option Text) (p : Text × Content) : Option Text :=
+  match textOf p.2 with
+  | some [] => none
+  | some t => if some p.1 = special then some (t ++ [nl]) else none
+  | none => none
 /-- the special attachment (the last one of that name wins; names are unique in a dict) -/
 def specialContent (special : Option Text) (d : Details) : Option Text :=
-  (d.filterMap fun p => match textOf p.2 with
-    | some [] => none
-    | some t => if some p.1 = special then some (t ++ [nl]) else none
-    | none => none).getLast?
+  (d.filterMap (specialLine special)).getLast?
 
 def detailsToStr (details : Details) (special : Option Text) : Text :=
   let d := sortDetails details
@@ -524,8 +542,7 @@ def detailsToExc (d : Details) : Arg := .exc (.str (detailsToStr d (some traceba
 def detailsToReason (d : Details) : Text :=
   match lookup d reasonKey with
   | some (.text r) => r
-  | some _ => []
-  | none => detailsToStr d none
+  | _ => detailsToStr d none     -- no `reason` (a non-text `reason` raises in `as_text`: outside the domain)
 
 def etodStep (I : Iface σ) (own : EtodOwn) (inner : σ) (c : Call) : EtodOwn × σ :=
   let fwdIf (b : Bool) : EtodOwn × σ := (own, if b then I.step inner c else inner)
